@@ -9,7 +9,7 @@ Definition meta_ok (m : meta) : Prop :=
   well_sized (m_link m) = true
   /\ m_bytes m = blen (content (m_link m))
   /\ m_bytes m < bound63
-  /\ match m_link m with Raw _ => True | Pb _ (_ :: _) => True | _ => False end
+  /\ match m_link m with Ext _ _ => False | _ => True end
   /\ m_stored m = cum_size (m_link m)
   /\ tsizes_ok (m_link m) = true.
 
@@ -165,7 +165,7 @@ Proof.
       rewrite children_content_links, (children_bytes_len _ Hok), zlen_blen. reflexivity.
   - rewrite Hcont. apply children_bytes_len. exact Hok.
   - exact Hsum.
-  - rewrite Hfl. exact I.
+  - exact I.
   - rewrite cum_size_pb, (cum_size_links _ Hok). lia.
   - rewrite tsizes_ok_pb. apply tsizes_links. exact Hok.
 Qed.
